@@ -359,6 +359,9 @@ def adp_cases(tier):
       for si in range(0, len(cov), 5):
         cs.append(Case("adp4 %s cover%d" % ("/".join(order), si), api_case, target="eam_adp", elements=order, pairs=cov[si],
                        dip=cov[(si + 3) % len(cov)], quad=cov[(si + 5) % len(cov)], nr=2, nrho=2, route="class", rot=si))
+  from checks import eam_api as _ea
+  cs += _ea.surplus_cases("eam_adp", tier)
+  cs += _ea.after_failure_cases("eam_adp", tier)
   return cs
 
 
